@@ -1,7 +1,7 @@
 (* C19 -- Simulation processes run deterministically in the documented phase order.
    Model: SimProcDefs.v (transcription of ReferenceSimulator.cpp / SimulationProcess.h scheduling, tied to
    the real simulator by checks/C19.py on every run), FiberDefs.v (thread hand-off of SimulationFiber.cpp).
-   Proofs: SimProcOrder.v SimProcSteps.v SimProcInv1.v .. SimProcInv7.v SimProcExamples.v FiberProofs.v.
+   Proofs: SimProcOrder.v SimProcSteps.v SimProcInv1.v .. SimProcInv8.v SimProcExamples.v FiberProofs.v.
 
    Quantifiers: every clock configuration [cfg] (one or two clocks, any frequencies), every set of process
    scripts and fork targets, coroutine or fiber mode, every tie-break stream [tb] (the order in which
@@ -10,7 +10,7 @@
    "Reachable" = reachable in the small-step semantics of SimProcSteps.v, which contains every state the
    interpreter [run] passes through (interpreter_states_reachable). *)
 From Coq Require Import List NArith ZArith QArith Bool.
-From Gatery Require Import SimProcDefs SimProcOrder SimProcSteps SimProcInv1 SimProcInv2 SimProcInv3 SimProcInv4 SimProcInv5 SimProcInv6 SimProcInv7 SimProcExamples FiberDefs FiberProofs.
+From Gatery Require Import SimProcDefs SimProcOrder SimProcSteps SimProcInv1 SimProcInv2 SimProcInv3 SimProcInv4 SimProcInv5 SimProcInv6 SimProcInv7 SimProcInv8 SimProcExamples FiberDefs FiberProofs.
 Import ListNotations.
 Local Close Scope Q_scope.
 
@@ -105,6 +105,42 @@ Example waits_nontrivial :
   count_entries (fun e => match e with LProc _ _ _ _ _ (AWake (WkFor _) _) => true | _ => false end) = 2%nat /\
   count_entries (fun e => match e with LProc _ _ _ _ _ (AWake (WkChange _) _) => true | _ => false end) = 1%nat.
 Proof. destruct demo_nontrivial as (A & B & C & _). exact (conj A (conj B C)). Qed.
+
+(* ---------------------------------------------------------------- WaitClock: the tick grid *)
+
+(* [tick f j] = j/f.  Every resumption from a clock wait happens at a tick k/f (k >= 1) of the awaited clock, not
+   before the suspension (time g_t0), with no tick strictly between suspension and resumption:
+   - clocks that drive clocked nodes (WkClk): resumed by the next activating clockPinTrigger;
+   - clocks that are NOT part of the simulation program (WkX; root or derived): resumed by an ordinary event at
+     exactly (floor(t0*f)+1)/f, strictly after t0, in the requested timing phase (all three phases alike). *)
+Theorem waitclk_on_tick_grid : forall cfg procs fiber until tb fuel,
+  (forall t ph mt ro pid c wph g,
+     In (LProc t ph mt ro pid (AWake (WkClk c wph) g)) (res_log (simulate cfg procs fiber until tb fuel)) ->
+     exists j : positive, (t == tick (clk_freq cfg (eff_clk cfg c)) (Zpos j))%Q /\ (g_t0 g <= t)%Q
+                          /\ (t - / clk_freq cfg (eff_clk cfg c) <= g_t0 g)%Q) /\
+  (forall t ph mt ro pid i wph g,
+     In (LProc t ph mt ro pid (AWake (WkX i wph) g)) (res_log (simulate cfg procs fiber until tb fuel)) ->
+     (t == next_tick (extra_freq cfg i) (g_t0 g))%Q /\ ph = wph /\
+     (exists j : Z, (1 <= j)%Z /\ (t == tick (extra_freq cfg i) j)%Q) /\
+     (g_t0 g < t)%Q /\ (t - / extra_freq cfg i <= g_t0 g)%Q).
+Proof. exact waitclk_on_tick_grid_proof. Qed.
+Print Assumptions waitclk_on_tick_grid.
+
+(* A clock that drives registers and a register-less clock of the same frequency wake their waiters at the same
+   instants: a process that waited on clock c from t0 and was resumed strictly later than t0 was resumed exactly
+   when a wait on the register-less clock i issued at the same t0 ends.  (Resumption AT t0 happens only in the
+   known cross-clock situation: suspended in phase BEFORE of an instant at which c's own trigger is still queued.) *)
+Theorem equal_frequency_same_instants : forall cfg procs fiber until tb fuel t ph mt ro pid c wph g i,
+  In (LProc t ph mt ro pid (AWake (WkClk c wph) g)) (res_log (simulate cfg procs fiber until tb fuel)) ->
+  (clk_freq cfg (eff_clk cfg c) == extra_freq cfg i)%Q -> (g_t0 g < t)%Q ->
+  (t == next_tick (extra_freq cfg i) (g_t0 g))%Q.
+Proof. exact equal_frequency_same_instants_proof. Qed.
+Print Assumptions equal_frequency_same_instants.
+(* clock A 100 Hz with registers, register-less clocks of 100 Hz (root) and 75 Hz (derived 3/4); waits issued 1/4
+   and 2/3 of a period after a tick: both processes wake at 1/100 and 1/50, then p0 hops to 2/75 and 3/100 *)
+Example tick_grid_nontrivial :
+  extra_wakes = [(0%nat, 1 # 100); (1%nat, 1 # 100); (0%nat, 1 # 50); (1%nat, 1 # 50); (0%nat, 2 # 75); (0%nat, 3 # 100)]%Q.
+Proof. exact (proj1 extra_wakes_value). Qed.
 
 (* ---------------------------------------------------------------- phases BEFORE / DURING / AFTER *)
 (* The log of the final state is [s_log (run ...)], NEWEST ENTRY FIRST (res_log is its reverse): in
